@@ -354,7 +354,15 @@ pub fn c02(big: bool) -> BoxedStrategy<Case> {
             let owning = spawn.owning();
             (Just(spawn), Just(cause), grants(n, owning, 2), vec(vec(op.clone(), 3..=max_ops), n..=n), schedule(if big { 96 } else { 48 }))
         })
-        .prop_map(|(mut spawn, cause, grants, clients, schedule)| {
+        .prop_map(|(mut spawn, cause, grants, mut clients, schedule)| {
+            // one case in sixteen: a long backlog (one slow message, then 70 sends in a row) in front of
+            // the client's own calls - every one of them still resolves
+            if schedule.len() % 16 == 3 {
+                let mut prog = vec![ClientOp::Send { h: 0, work: vec![Step::Sleep(4)] }];
+                prog.extend((0..70).map(|i| ClientOp::Send { h: (i * 7919) as u16, work: vec![] }));
+                prog.append(&mut clients[0]);
+                clients[0] = prog;
+            }
             let mut faults = vec![];
             match cause {
                 Cause::None | Cause::FinishPanic => {}
